@@ -192,14 +192,14 @@ PROPERTIES = {
         # reading more ages than labelled finds the same matches again: closedness is not affected (C16 is)
         # (likewise a labelling enumerated twice, or an all-old labelling enumerated, by the semi-naive family)
         "irrelevant_keys": ["T-PLAN:atom:age-widened", "T-SEMI:family:cover:overlap", "T-SEMI:family:cover:all-old-enumerated"],
-        "rules": ["T-PLAN", "T-SEMI", "T-LOOP", "T-DELTA", "T-DIRTY", "T-CANON", "T-INS", "T-MOVE", "T-DIAG", "T-FUNC", "T-AGE", "T-FLAT", "S-SIB", "S-LEAF", "S-NAV", "S-PRUNE"],
+        "rules": ["T-PLAN", "T-SEMI", "T-LOOP", "T-DELTA", "T-DIRTY", "T-CANON", "T-INS", "T-MOVE", "T-DIAG", "T-FUNC", "T-AGE", "T-FLAT", "S-SIB", "S-LEAF", "S-NAV", "S-PRUNE", "S-SET"],
         "level": "translation_validation",
     },
     # soundness does not depend on which ages an atom is served from
-    "C02": {"irrelevant_keys": ["T-PLAN:atom:age-widened", "T-PLAN:atom:age-narrowed"], "rules": ["T-PLAN", "T-DIAG", "T-INS", "T-MOVE", "T-CANON", "T-LOOP", "T-API", "T-ALLOC", "T-FLAT", "S-SIB", "S-LEAF", "S-NAV"], "level": "translation_validation"},
-    "C03": {"irrelevant_keys": ["T-SEMI:family:cover:overlap", "T-SEMI:family:cover:all-old-enumerated"], "rules": ["T-SEMI", "T-MOVE", "T-CANON", "T-LOOP", "T-INS", "T-DIAG", "T-AGE", "S-SIB", "S-LEAF", "S-PRUNE"], "level": "translation_validation"},
-    "C04": {"rules": ["T-FAM", "T-INS", "T-MOVE", "T-CANON", "T-DIAG", "T-DIRTY", "T-API", "T-ENUM", "T-MOR", "S-SIB", "S-LEAF", "S-NAV"], "level": "translation_validation"},
-    "C05": {"rules": ["T-API", "T-INS", "M-UF"], "level": "other"},
+    "C02": {"irrelevant_keys": ["T-PLAN:atom:age-widened", "T-PLAN:atom:age-narrowed"], "rules": ["T-PLAN", "T-DIAG", "T-INS", "T-MOVE", "T-CANON", "T-LOOP", "T-API", "T-ALLOC", "T-FLAT", "S-SIB", "S-LEAF", "S-NAV", "S-SET"], "level": "translation_validation"},
+    "C03": {"irrelevant_keys": ["T-SEMI:family:cover:overlap", "T-SEMI:family:cover:all-old-enumerated"], "rules": ["T-SEMI", "T-MOVE", "T-CANON", "T-LOOP", "T-INS", "T-DIAG", "T-AGE", "S-SIB", "S-LEAF", "S-PRUNE", "S-SET"], "level": "translation_validation"},
+    "C04": {"rules": ["T-FAM", "T-INS", "T-MOVE", "T-CANON", "T-DIAG", "T-DIRTY", "T-API", "T-ENUM", "T-MOR", "S-SIB", "S-LEAF", "S-NAV", "S-SET"], "level": "translation_validation"},
+    "C05": {"rules": ["T-API", "T-INS", "M-UF", "S-SIB", "S-LEAF", "S-NAV", "S-SET"], "level": "other"},
     "C08": {"rules": ["S-SIB", "S-PRUNE", "S-LEAF", "S-SET", "T-PRUNE-USE", "M-FREEZE", "M-UNSAFE", "M-MAPFREE", "M-SHARE", "M-CBORDER"], "level": "other"},
     "C14": {"rules": ["M-FREEZE", "M-UNSAFE", "M-MAPFREE", "M-SHARE", "M-CBORDER", "M-LEN", "M-SIZE", "M-BAL", "S-NAV", "S-SET"], "level": "other"},
     # of T-MOR only the clauses about the call of the topological sort concern C18 (how its output is used is C17)
@@ -212,7 +212,7 @@ PROPERTIES = {
     "C13": {"rules": ["M-DET", "M-PAR", "M-DIRTAINT"], "level": "other"},
     "C19": {"rules": ["T-X", "M-EMIT", "M-DIRTAINT"], "level": "translation_validation"},
     "C20": {"rules": ["M-DETRT", "T-DET", "M-UNSAFE", "M-FREEZE"], "level": "other"},
-    "C15": {"rules": ["T-ALLOC", "T-ENUM", "T-DELTA"], "level": "other"},
+    "C15": {"rules": ["T-ALLOC", "T-ENUM", "T-DELTA", "S-SIB", "S-LEAF", "S-NAV", "S-SET"], "level": "other"},
     "C07": {"rules": ["T-LOOP", "T-PENDING"], "level": "other"},
     # of the close_until typestate only the clauses about running rules / evaluating the condition on stale `all` copies
     "C17": {"only_keys": {"T-LOOP": ["T-LOOP:close_until:rules-on-stale-tables", "T-LOOP:close_until:condition-on-stale-tables", "T-LOOP:close_until:env-"]}, "rules": ["T-MOR", "T-AGE", "T-LOOP", "S-PRUNE", "S-SIB"], "level": "translation_validation"},
